@@ -684,6 +684,7 @@ def r4(ctx):
                f"raises for ordinary events and aborts the whole response rewrite")
         ctx.ob("C17.R4", "_handle_eq_event: register_region not in a loop",
                not any(isinstance(x, (ast.For, ast.While)) for x in ancestors(c)), eq.w(c))
+    _r4_template_agreement(ctx, eq)
     # BaseClientSession.register_region (the search loop may live in a helper the function calls)
     f = Fn(ctx, "BaseClientSession.register_region")
     addr = f.params[1] if len(f.params) > 1 else None
@@ -767,6 +768,65 @@ def r4(ctx):
         if g.qual == "Session.register_region":
             ctx.note("C17.R4: Session.register_region fires AddonManager.handle_region_registered on every call, also "
                      "when the region already existed (session.regions itself is unaffected)")
+
+
+def _block_choice(msgvar: str, e) -> Optional[List[str]]:
+    """Block names tried in order by `M[B]` / `M.get_block(B, <fallback>)`; None for other shapes."""
+    if e is None or (isinstance(e, ast.Constant) and e.value is None):
+        return []
+    if isinstance(e, ast.Subscript) and ap(e.value) == msgvar and isinstance(e.slice, ast.Constant) \
+            and isinstance(e.slice.value, str):
+        return [e.slice.value]
+    if isinstance(e, ast.Call) and call_attr(e) == "get_block" and isinstance(e.func, ast.Attribute) \
+            and ap(e.func.value) == msgvar and e.args and isinstance(e.args[0], ast.Constant):
+        rest = _block_choice(msgvar, e.args[1]) if len(e.args) > 1 else []
+        return None if rest is None else [e.args[0].value] + rest
+    return None
+
+
+def _r4_template_agreement(ctx, eq: "Fn"):
+    """Fields read from a templated region-announcing message exist in the block the code selects, for
+    every message name of the branch (message_template.msg is the oracle)."""
+    from ..tmplmodel import parse_template
+    tmpl = parse_template(ctx.repo.root, ctx.repo.overlay)
+    from .common import class_methods_reachable
+    n = 0
+    sites = [(g, x) for g in class_methods_reachable(ctx.repo, eq.fi, depth=2) for x in walk(g.node) if isinstance(x, ast.If)]
+    for g, st in sites:
+        names, msgvar = set(), None
+        for e, pol in atoms(st.test, True):
+            if not (pol and isinstance(e, ast.Compare) and len(e.ops) == 1 and (ap(e.left) or "").endswith(".name")):
+                continue
+            c0 = e.comparators[0]
+            if isinstance(e.ops[0], ast.Eq) and isinstance(c0, ast.Constant) and isinstance(c0.value, str):
+                names.add(c0.value)
+            elif isinstance(e.ops[0], ast.In) and isinstance(c0, (ast.Tuple, ast.List, ast.Set)):
+                names |= {x.value for x in c0.elts if isinstance(x, ast.Constant) and isinstance(x.value, str)}
+            else:
+                continue
+            msgvar = ap(e.left)[:-len(".name")]
+        names = {x for x in names if x in tmpl}
+        if not names or msgvar is None:
+            continue
+        body = ast.Module(body=st.body, type_ignores=[])
+        for s_ in stores(body, into_defs=False):
+            if s_.kind != "assign" or "." in s_.path or not isinstance(s_.value, ast.Subscript):
+                continue
+            choice = _block_choice(msgvar, s_.value.value)
+            if choice is None:
+                continue
+            keys = sorted({x.slice.value for x in walk(body) if isinstance(x, ast.Subscript) and ap(x.value) == s_.path
+                           and isinstance(x.slice, ast.Constant) and isinstance(x.slice.value, str)})
+            for name in sorted(names):
+                tm = tmpl[name]
+                chosen = next((b for b in choice if tm.block(b) is not None), None)
+                missing = [k for k in keys if chosen is None or tm.block(chosen).var(k) is None]
+                n += 1
+                ctx.ob("C17.R4", f"{g.name}: {name}: fields {keys} exist in the block selected for {s_.path}",
+                       chosen is not None and not missing, ctx.w(g, s_.node),
+                       f"{norm(s_.value)} selects block {chosen!r} of {name} (blocks tried in order {choice}), which has no "
+                       f"{missing}: the lookup raises, the region is never registered and the response rewrite is aborted")
+    ctx.floor("C17.R4", "template-checked block reads in _handle_eq_event", n, 2)
 
 
 def _found_prevents_append(hf: "Fn", lp, firsts, matched, f: "Fn", via, app_call):
